@@ -17,7 +17,7 @@ TEMPLATE = list(H.P('template', [None, None]))      # code with holes: ints are 
 TAIL = sum(1 for t in TEMPLATE if t is None)
 DEPTH = H.P('depth', 2)
 DOC = H.P('doc', 'dict')
-LO, HI = H.P('lo', -2), H.P('hi', 3)
+LO, HI = H.P('lo', -1), H.P('hi', 2)
 
 FUNCTIONS_ENCODED = [
     'yaql.language.expressions.* (Function/BinaryOperator/ListExpression/MapExpression/IndexExpression/GetContextValue/'
@@ -32,7 +32,7 @@ BOUNDS = {
              'fixes part of the code (template) and leaves 2 slots symbolic (List[int] of length 2): every program of the '
              'shard (49 when both slots are leaves, up to 147 when one is a kind) is explored; shards: a window of 22 of the '
              '49 scoping-core templates at depth 2 (rotated by VERIF_SEED) plus 4 seeded random depth-3 programs with two '
-             'symbolic leaves; data: document shape per shard built from symbolic i1,i2,i3 in [-2,3]',
+             'symbolic leaves; data: document shape per shard built from symbolic i1,i2,i3 in [-1,2]',
     'thorough': 'all 49 core templates, the first 12 also with 3 symbolic slots, 60 seeded random depth-3 templates, and '
                 'every scoping root (12) x every kind of its first child (21) with the following slot symbolic'}
 OUTSIDE = ['programs outside the sampled shards / deeper than the bound', 'functions outside the fragment',
@@ -43,7 +43,7 @@ OUTSIDE = ['programs outside the sampled shards / deeper than the bound', 'funct
 ASSUMPTIONS = ['the reference interpreter (props/c04_ref.py) is the specification; it is validated at start-up against the '
                'real engine on the scoping expressions recorded in DESIGN.md appendix A and on 400 concrete random '
                'programs of depth 3 from the same decoder',
-               'data ints are bounded to [-2,3] because error messages and dict look-ups make the tool enumerate values']
+               'data ints are bounded to [-1,2] because error messages and dict look-ups make the tool enumerate values']
 EXPLANATION = ('Bounded symbolic execution (CrossHair+z3): the symbolic tail of an integer code selects the program (each '
                'path realises one program of the shard), the document values stay symbolic through the real evaluation '
                'and through the reference interpreter, and the two outcomes must agree on every path: same value '
@@ -248,7 +248,7 @@ def shard_list(tier, seed):
             template[h] = rnd.randrange(len(R.LEAVES))
         for h in rnd.sample(slots, 2):
             template[h] = None
-        out.append({'doc': rnd.choice(list(R.DOCS)), 'template': template, 'depth': 3})
+        out.append({'doc': rnd.choice(['int', 'pair', 'dict']), 'template': template, 'depth': 3})
         made += 1
     if not quick:
         # every scoping root x every kind of its first child, the following slot symbolic
@@ -294,7 +294,7 @@ def conditions(tier, seed):
         sample = R.render(R.decode([0 if x is None else x for x in sh['template']], sh['depth']))
         out.append({'name': name, 'func': 'program', 'timeout': t, 'param': sh,
                     'bounds': 'code template %r (None = symbolic slot), depth %d, e.g. %s; document %s with i1,i2,i3 in '
-                              '[-2,3]' % (sh['template'], sh['depth'], sample, R.DOCS[sh['doc']][0])})
+                              '[-1,2]' % (sh['template'], sh['depth'], sample, R.DOCS[sh['doc']][0])})
     return out
 
 
@@ -324,7 +324,7 @@ def validate():
         code = [rnd.randrange(0, 22) for _ in range(rnd.randint(1, 24))]
         ast = R.decode(code, 3)
         dk = rnd.choice(list(R.DOCS))
-        data = R.DOCS[dk][1](rnd.randint(-2, 3), rnd.randint(-2, 3), rnd.randint(-2, 3))
+        data = R.DOCS[dk][1](rnd.randint(-1, 2), rnd.randint(-1, 2), rnd.randint(-1, 2))
         try:
             ok, text, got, exp = compare(ast, data)
         except RecursionError:
